@@ -1820,6 +1820,44 @@ def _corr_helpers(ctx, drv):
                 ctx.disagree(fnm + "-returned-signal", inp, np.asarray(s.x).tolist(), x[~np.asarray(s.pv)].tolist())
 
 
+# ----- psdmod's row maximum, resample's storage types ---------------------------------------------------------
+
+def _corr_psdmod_dtypes(ctx, drv):
+    from pyyeti import dsp, psd
+
+    rng = ctx.rng
+    cases = []
+    req = []
+    for _ in range(ctx.pick(3, 12)):
+        sig = np.random.default_rng(rng.randint(0, 10 ** 6)).normal(size=rng.choice([1200, 2000]))
+        sr, nper, ts_ = 400.0, rng.choice([50, 100]), rng.choice([0.5, 1.0])
+        f, p, pmap, t = psd.psdmod(sig, sr, nperseg=nper, timeslice=ts_, tsoverlap=0.5, getmap=True)
+        cases.append((p, pmap))
+        req.append("pmx " + " ; ".join(_bits(row) for row in pmap))
+    names = ["int16", "int32", "int64", "uint8", "bool", "list", "float32", "float64"]
+    req += ["rdt " + ("float32" if nm == "float32" else "float64" if nm == "float64" else "int") for nm in names]
+    rep = drv.ask(req)
+    for (p, pmap), r in zip(cases, rep):
+        ctx.case(("pmx", pmap.shape, float(p[0])), nontrivial=pmap.shape[1] > 1, branch="psdmod:row-maximum")
+        if r in ("raises", "bad-op") or not np.array_equal(_unbits(r), p):
+            ctx.disagree("psdmod-row-maximum", {"shape": list(pmap.shape)}, np.asarray(p).tolist()[:6], r[:80])
+    nprng = ctx.np_rng(31)
+    for nm, r in zip(names, rep[len(cases):]):
+        m_mean, m_buf, m_out = r.split()
+        nums = nprng.integers(0, 2 if nm == "bool" else 200, size=12)
+        typed = [int(v) for v in nums] if nm == "list" else nums.astype(getattr(np, "bool_" if nm == "bool" else nm))
+        mean_t = str(np.mean(np.atleast_1d(typed), axis=-1, keepdims=True).dtype)
+        ok = True
+        for pq in ((3, 1), (1, 2), (3, 2), (1, 1)):
+            out, fir = dsp.resample(typed, pq[0], pq[1], pts=3, getfir=True)
+            ok = ok and str(out.dtype) == m_out and str(fir.dtype) == "float64"
+            ref = dsp.resample(nums.astype(float), pq[0], pq[1], pts=3)
+            ok = ok and np.allclose(np.asarray(out, dtype=float), ref, rtol=0, atol=1e-4 if nm == "float32" else 1e-9)
+        ctx.case(("rdt", nm), nontrivial=nm != "float64", branch="resample-storage:" + ("int" if m_mean == "float64" and nm not in ("float64",) else nm))
+        if not ok or mean_t != m_mean or m_buf != "float64":
+            ctx.disagree("resample-storage-types", {"dtype": nm}, {"mean": mean_t}, {"mean": m_mean, "buffer": m_buf, "out": m_out})
+
+
 # ----- fixtime's time base -----------------------------------------------------------------
 
 def _gen_told_for_tnew(rng):
@@ -2035,6 +2073,7 @@ def correspondence(ctx):
     _corr_fixtime(ctx, drv)
     _corr_fixfull(ctx, drv)
     _corr_helpers(ctx, drv)
+    _corr_psdmod_dtypes(ctx, drv)
     _corr_tnew(ctx, drv)
     _corr_resample(ctx, drv)
     _corr_psd(ctx, drv)
@@ -2048,7 +2087,7 @@ def correspondence(ctx):
         "branch:edges-exact-rational", "edges:exact", "edges:below-tol", "edges:above-tol",
     ] if have_edges else []) + [
         "fixtime-full:auto:nospikes:nobase", "fixtime-full:auto:spikes:base", "fixtime-full:sr:spikes:nobase", "fixtime-full:sr:nospikes:base",
-        "fixtime-full:only-dropouts", "fixtime-full:raises",
+        "fixtime-full:only-dropouts", "fixtime-full:raises", "psdmod:row-maximum", "resample-storage:int", "resample-storage:float32",
         "branch:fixtime-auto-average", "branch:fixtime-auto-mode", "branch:fixtime-auto-rate-differs-from-nominal",
         "branch:fixtime-auto-slow-resolution", "branch:fixtime-base", "branch:fixtime-delspikes-despike",
         "branch:fixtime-delspikes-despike_diff", "branch:fixtime-delspikes-simple", "branch:fixtime-dropval-given",
@@ -2674,6 +2713,218 @@ def _or_index_private(ctx, told, tnew, nb):
     ctx.count("oracle:index-rules")
 
 
+def _gen_auto_record(rng):
+    """a record in which at least 92 % of the steps are exactly 1/r and the rest are long gaps"""
+    r = rng.choice([5, 10, 20, 50, 1, 2, 4, 0.5])
+    n = rng.randint(60, 160)
+    steps = [1.0 / r] * n
+    for i in rng.sample(range(n), rng.randint(max(1, n // 20), max(1, (8 * n) // 100))):
+        steps[i] = rng.choice([30, 45, 60]) / r
+    return {"rate": r, "steps": steps, "t0": float(rng.randint(-20, 20)), "hold": rng.random() < 0.5}
+
+
+def _or_fix_auto(ctx, c):
+    """sr='auto': when more than 90 % of the time steps are one and the same 1/r the rate chosen is the most frequent
+    rate to the resolution of the count (documented: at most 5 samples/s; the resolution is never coarser than the
+    slowest rate present, which is below r): |sr - r| <= min(2.5, r/2 + 0.05) - not the average rate, which long gaps
+    pull far below r"""
+    from pyyeti import dsp
+
+    t = c["t0"] + np.concatenate(([0.0], np.cumsum(c["steps"])))
+    y = np.arange(len(t), dtype=float)
+    with warnings.catch_warnings():
+        _quiet()
+        (tn, yn), info = dsp.fixtime((t, y), "auto", hold_previous_value=c["hold"], getall=True, verbose=False)
+    share = sum(1 for s_ in c["steps"] if s_ == 1.0 / c["rate"]) / len(c["steps"])
+    if share <= 0.905 or len(tn) < 2:
+        return
+    # the count works to a resolution set by the SLOWEST rate present (5, or that rate rounded to 0.1): when r sits half-way
+    # between two multiples of it, rounding noise of 1/diff(t) splits the count between the two - not claimed
+    slow = 1.0 / max(c["steps"])
+    res = 5.0 if slow > 5 else round(10 * max(slow, 0.1)) / 10
+    x = c["rate"] / res
+    if abs((x - math.floor(x)) - 0.5) < 0.05:
+        ctx.count("oracle:fixtime-auto-rate-between-two-count-bins")
+        return
+    step = float(np.mean(np.diff(tn)))
+    lim = min(2.5, c["rate"] / 2 + 0.05) * (1 + 1e-9)
+    if not abs(1.0 / step - c["rate"]) <= lim:
+        ctx.fail("fixtime-auto-rate-not-most-frequent", "fixtime(sr='auto') does not choose (to the resolution of its count) the sample rate that more "
+                 "than 90 % of the time steps have", c, {"sr": 1.0 / step, "sr_stats": [float(v) for v in info.sr_stats]},
+                 {"sr": c["rate"], "within": lim})
+    ctx.count("oracle:fixtime-auto")
+
+
+def _or_fix_options(ctx, c):
+    """`base`, `dropval`, despiking bookkeeping of fixtime on the public API"""
+    from pyyeti import dsp
+
+    st, r = _run_fixfull(c)
+    if st != "ok" or r["early"]:
+        return
+    t_, y_, _sv = _sorted_record(c)
+    pos = np.arange(len(t_)) if _sv is None else np.asarray(_sv)
+    inp = {k: c[k] for k in c if k not in ("full",)}
+    # every bookkeeping vector is made of record positions; alldrops contains the others
+    ad = set(r["alldrops"])
+    parts = set(r["dropouts"] or []) | set(r["spikes"] or []) | (set(r["outtimes"]) if c["delouttimes"] else set())
+    if not parts <= ad or not ad <= set(range(len(t_))):
+        ctx.fail("fixtime-alldrops-not-a-superset", "fixinfo.alldrops.alldrops does not contain dropouts, spikes and the deleted outlier times",
+                 inp, sorted(ad)[:20], sorted(parts)[:20])
+        return
+    # dropval: exactly the samples within 1 % of it (or nan/inf) are drop-outs
+    if c["deldrops"] and not c["delspikes"]:
+        dv = _dropval_of(c)
+        yy = _yarr(c)
+        want = sorted(int(i) for i in np.nonzero(~np.isfinite(yy) | ((np.abs(yy - dv) < abs(dv) / 100) if math.isfinite(dv) else False))[0])
+        near = math.isfinite(dv) and dv != 0 and np.any(np.abs(np.abs(yy[np.isfinite(yy)] - dv) - abs(dv) / 100) < 1e-9 * abs(dv))
+        if r["dropouts"] != want and not near:
+            ctx.fail("fixtime-dropval", "the drop-outs are not exactly the nan/inf samples and the samples within 1 % of `dropval`", inp, r["dropouts"], want)
+            return
+    # the samples returned are taken from what was not deleted
+    kept_vals = _yarr(c)[sorted(set(range(len(t_))) - ad)]
+    fin = r["yn"][np.isfinite(r["yn"])]
+    if len(kept_vals) and not np.all(np.isin(fin, kept_vals)):
+        ctx.fail("fixtime-returns-deleted-sample", "fixtime returns a sample that fixinfo.alldrops lists as deleted", inp,
+                 ["%r" % v for v in fin[~np.isin(fin, kept_vals)][:5]], "a kept sample")
+        return
+    # base: same samples, time base moved by at most half a step onto base + k/sr
+    if c["base"] is not None and len(r["tn"]) > 1:
+        c0 = dict(c, base=None)
+        st0, r0 = _run_fixfull(c0)
+        if st0 == "ok" and not r0["early"] and len(r0["tn"]) == len(r["tn"]):
+            dt = float(np.mean(np.diff(r0["tn"])))
+            sh = r["tn"] - r0["tn"]
+            k = (c["base"] - r["tn"][0]) / dt
+            bad = (not np.array_equal(r["yn"], r0["yn"], equal_nan=True) or np.ptp(sh) > 1e-9 * dt + 1e-12 * (1 + abs(c["base"]))
+                   or abs(sh[0]) > dt / 2 * (1 + 1e-9) + 1e-12 * (1 + abs(c["base"])) or abs(k - round(k)) > 1e-6)
+            if bad:
+                ctx.fail("fixtime-base", "fixtime(base=b): the samples differ from base=None, or the time base is not moved by at most half a step "
+                         "onto b + k/sr", inp, {"shift": float(sh[0]), "k": float(k)}, {"abs(shift) <=": dt / 2, "k": "integer"})
+                return
+            ctx.count("oracle:fixtime-base")
+    ctx.count("oracle:fixtime-options")
+
+
+def _or_fix_fixed(ctx):
+    """fixed inputs: a time exactly 3 sigma from the mean stays; fixing an already-fixed record changes nothing"""
+    from pyyeti import dsp
+
+    for tt in ([3, 16, 18, 19, 33, 39, 43, 45, 49, 52, 57, 58, 166], [14, 28, 34, 35, 36, 40, 44, 51, 54, 55, 56, 165]):
+        t = np.array(tt, dtype=float)
+        with warnings.catch_warnings():
+            _quiet()
+            (tn, yn), info = dsp.fixtime((t, np.arange(len(t), dtype=float)), 1, getall=True, verbose=False)
+        mn, sg = Fraction(sum(tt), len(tt)), None
+        var9 = 9 * sum((Fraction(x) - mn) ** 2 for x in tt) / (len(tt) - 1)
+        assert (Fraction(tt[-1]) - mn) ** 2 == var9
+        if len(info.alldrops.outtimes) != 0 or tn[-1] != t[-1]:
+            ctx.fail("fixtime-outlier-time-exactly-3-sigma", "a time exactly 3 standard deviations from the mean (documented: MORE than 3) is treated as an outlier",
+                     {"t": tt}, [int(i) for i in info.alldrops.outtimes], [])
+    rng = ctx.rng
+    for _ in range(ctx.pick(40, 300)):
+        c = _gen_fixtime(rng)
+        if c["hold"] and c["tol"] >= 1.0:
+            continue
+        r1 = _run_fixtime(c)
+        if isinstance(r1[0], str) or r1[2] is None or len(r1[0]) < 2 or not np.isfinite(r1[1]).all():
+            continue
+        tn, yn = r1[0], r1[1]
+        if not np.all(np.diff(tn) == 1.0 / c["sr"]):
+            continue        # float time base not exactly uniform (shifted by a non-dyadic mean)
+        c2 = dict(c, t=tn.tolist(), y=["%r" % float(v) for v in yn])
+        r2 = _run_fixtime(c2)
+        if isinstance(r2[0], str):
+            continue
+        if not (np.array_equal(r2[0], tn) and np.array_equal(r2[1], yn)):
+            ctx.fail("fixtime-not-idempotent", "fixing an already-fixed record changes it", c, {"t": r2[0].tolist()[:8], "y": r2[1].tolist()[:8]},
+                     {"t": tn.tolist()[:8], "y": yn.tolist()[:8]})
+            return
+        ctx.count("oracle:fixtime-idempotent")
+
+
+def _or_despike(ctx, c):
+    """the despikers on the API: the returned signal is the input without the flagged points; a signal in which nothing
+    is flagged comes back unchanged and despiking it again changes nothing"""
+    from pyyeti import dsp
+
+    x = np.array(c["x"], dtype=float)
+    for fnm, fn in (("despike", dsp.despike), ("despike_diff", dsp.despike_diff)):
+        if fnm == "despike_diff" and c["xp"] not in ("f", "l", "k0"):
+            continue
+        if c["xp"] in ("l",) or c["xp"] == "k%d" % (c["n"] - 1):
+            continue    # exclude_point='last' does not terminate on some records (reported separately)
+
+        def call(v):
+            with warnings.catch_warnings():
+                _quiet()
+                with np.errstate(all="ignore"):
+                    return fn(v.copy(), c["n"], sigma=c["sigma"], maxiter=c["maxiter"], threshold_sigma=c["ts"], threshold_value=c["tv"],
+                              exclude_point=_xp_py(c["xp"]))
+
+        st, s1 = _guarded(lambda: call(x), 2)
+        if st != "ok":
+            continue
+        pv = np.asarray(s1.pv, dtype=bool)
+        if len(pv) != len(x) or not np.array_equal(np.asarray(s1.x), x[~pv]):
+            ctx.fail(fnm + "-returned-signal", "%s does not return the input without exactly the flagged points" % fnm, dict(c, routine=fnm),
+                     np.asarray(s1.x).tolist()[:12], x[~pv].tolist()[:12])
+            return
+        if not pv.any():
+            if s1.niter != 1:
+                ctx.fail(fnm + "-niter", "%s flags nothing but reports more than one iteration" % fnm, dict(c, routine=fnm), int(s1.niter), 1)
+            continue
+    ctx.count("oracle:despike")
+
+
+def _or_rescale_const(ctx, c):
+    """a constant PSD comes out constant (inside bands; with extendends in every band that overlaps the input)"""
+    from pyyeti import psd
+
+    F, freq = np.array(c["F"]), np.array(c["freq"])
+    P = np.full(len(F), 2.5)
+    try:
+        with np.errstate(all="ignore"):
+            po, fo, msv, ms = psd.rescale(P, F, freq=freq, extendends=True)
+    except (ValueError, IndexError):
+        return
+    d = np.diff(F)
+    FLin, FUin = (F - d[0] / 2, F + d[0] / 2) if np.all(d == d[0]) else _edges_ref(F)
+    oL, oU = _edges_ref(freq)
+    sel = [i for i in range(len(freq)) if freq[i] in set(np.asarray(fo).tolist())]
+    if len(sel) != len(fo):
+        return
+    for k, i in enumerate(sel):
+        cov = min(oU[i], FUin[-1]) - max(oL[i], FLin[0])
+        if cov <= 1e-6 * (oU[i] - oL[i]):
+            continue
+        if k not in (0, len(sel) - 1) and not (oL[i] >= FLin[0] and oU[i] <= FUin[-1]):
+            continue
+        if not abs(po[k] - 2.5) <= 1e-9 * 2.5 * max(1.0, (oU[i] - oL[i]) / cov):
+            ctx.fail("rescale-constant-psd", "a constant PSD does not come out constant after rescale (extendends=True)", {kk: c[kk] for kk in ("F", "freq")},
+                     float(po[k]), 2.5)
+            return
+    ctx.count("oracle:rescale-constant")
+
+
+def _or_resample_gcd(ctx, inp):
+    """a common factor of p and q changes nothing; the result is float64 whatever the storage of the data"""
+    from pyyeti import dsp
+
+    data = np.random.default_rng(inp["dseed"]).normal(size=inp["n"])
+    a = dsp.resample(data, inp["p"], inp["q"], pts=inp["pts"])
+    for k in (2, 3):
+        b = dsp.resample(data, k * inp["p"], k * inp["q"], pts=inp["pts"])
+        if a.shape != b.shape or not np.array_equal(a, b):
+            ctx.fail("resample-common-factor", "resample(data, k*p, k*q) differs from resample(data, p, q)", dict(inp, k=k), b.tolist()[:6], a.tolist()[:6])
+            return
+    ints = (data * 50).astype(np.int32)
+    if dsp.resample(ints, inp["p"], inp["q"], pts=inp["pts"]).dtype != np.float64:
+        ctx.fail("resample-dtype-integer", "resampling integer data does not return float64", dict(inp, dtype="int32"),
+                 str(dsp.resample(ints, inp["p"], inp["q"], pts=inp["pts"]).dtype), "float64")
+    ctx.count("oracle:resample-gcd")
+
+
 def _hint_inputs(hints):
     out = {"fixtime": [], "spec": [], "rescale": [], "oct": []}
     for h in hints[:200]:
@@ -2716,6 +2967,27 @@ def search(ctx, hints):
         ctx.count("oracle:fixtime")
         if len(ctx.failures) > 12:
             return
+    for hnt in hints[:60]:
+        i = hnt.get("input")
+        if isinstance(i, dict) and i.get("full"):
+            _or_fix_options(ctx, i)
+            if i.get("sr_opt") == "auto" and "t" in i:
+                tt = np.sort(np.array(i["t"], dtype=float))
+                if len(tt) > 2:
+                    _or_fix_auto(ctx, {"rate": i["sr"], "steps": np.diff(tt).tolist(), "t0": float(tt[0]), "hold": i["hold"]})
+    _or_fix_fixed(ctx)
+    for _ in range(ctx.pick(60, 500)):
+        _or_fix_auto(ctx, _gen_auto_record(rng))
+    for _ in range(ctx.pick(250, 2000)):
+        _or_fix_options(ctx, _gen_fixfull(rng))
+        if len(ctx.failures) > 12:
+            return
+    for _ in range(ctx.pick(150, 1200)):
+        exact = rng.random() < 0.5
+        n_ = rng.choice([3, 5, 9] if exact else [3, 5, 9, 4, 7, 15])
+        _or_despike(ctx, {"x": _gen_spiky(rng, rng.randint(max(6, n_ + 2), 36), exact), "n": n_, "xp": rng.choice(["f", "f", "m", "k0", "k1"]),
+                          "tv": rng.choice([None, 4.0, 2.0, 8.0]), "ts": float(rng.choice([2, 0, 1])), "sigma": rng.choice([8, 2, 3]),
+                          "maxiter": rng.choice([-1, -1, 1, 2])})
     for _ in range(ctx.pick(800, 6000)):
         told = _gen_told(rng, strict=True)
         _or_index_private(ctx, told, _gen_tnew(rng, told), nb)
@@ -2735,6 +3007,8 @@ def search(ctx, hints):
         rs.append({"P": [1.0] * 41, "F": doc_F, "freq": [0.0, 5.0, 10.0], "ext": ext, "kin": "lin", "kout": "lin"})
         rs.append({"P": [float(1 + (i % 5)) for i in range(41)], "F": doc_F, "freq": [0.5, 2.5, 4.5, 6.5], "ext": ext, "kin": "lin", "kout": "lin"})
     rs += [_gen_rescale(rng, nprng) for _ in range(ctx.pick(1200, 8000))]
+    for c in rs[:ctx.pick(300, 2000)]:
+        _or_rescale_const(ctx, c)
     for c in rs:
         _or_rescale(ctx, c)
         ctx.count("oracle:rescale")
@@ -2763,6 +3037,8 @@ def search(ctx, hints):
         _or_dtypes(ctx, {"tseed": rng.randint(0, 10 ** 6)})
     # resample ------------------------------------------------------------------------
     _or_resample(ctx, {"n": 89, "p": 3, "q": 7, "pts": 10, "dseed": 1, "offset": 0.0, "fr": 0.02})  # F32's input
+    for _ in range(ctx.pick(40, 300)):
+        _or_resample_gcd(ctx, _gen_resample(rng))
     for _ in range(ctx.pick(250, 2000)):
         _or_resample(ctx, _gen_resample(rng))
         if len(ctx.failures) > 12:
@@ -2774,7 +3050,19 @@ def replay(ctx, data):
     i = f.get("input") or {}
     fam = f.get("family", "")
     sub = type(ctx)(ctx.prop, ctx.tier, ctx.seed)
-    if "hold" in i and "t" in i:
+    if i.get("full"):
+        _or_fix_options(sub, i)
+    elif "steps" in i and "rate" in i:
+        _or_fix_auto(sub, i)
+    elif "routine" in i and "xp" in i:
+        _or_despike(sub, i)
+    elif fam.startswith("fixtime-outlier-time-exactly") or fam == "fixtime-not-idempotent":
+        _or_fix_fixed(sub)
+    elif fam == "rescale-constant-psd":
+        _or_rescale_const(sub, i)
+    elif fam in ("resample-common-factor",) or (fam == "resample-dtype-integer" and "k" not in i and i.get("dtype") == "int32"):
+        _or_resample_gcd(sub, i)
+    elif "hold" in i and "t" in i:
         _or_fixtime(sub, i)
     elif "spec32" in i:
         _or_spec_float32(sub, i["spec32"])
